@@ -168,17 +168,32 @@ def make_jobs(ctx, n):
             cfg["esc_rate"] = -ctx.rng.uniform(0.05, 0.4) * sc / max(cfg["tout"])
         if kind in ("eject", "kicks"):
             cfg["kw"]["BH_ret_dyn"] = ctx.rng.choice([0.5, 0.2, 0.9])
+        if kind in ("eject", "kicks", "fbh") and ctx.rng.random() < 0.6:
+            # BH ejection at one age must not leak into another row: request an age after BH formation more than once
+            late = [t for t in cfg["tout"] if t >= 30.0] or [round(loguniform(ctx.rng, 30, 14000), 1)]
+            t_rep = ctx.rng.choice(late)
+            cfg["tout"] = list(cfg["tout"]) + [t_rep] * ctx.rng.choice([1, 1, 2])
+            if t_rep not in cfg["tout"][:-1]:
+                cfg["tout"].append(t_rep)
+            if ctx.rng.random() < 0.5:
+                ctx.rng.shuffle(cfg["tout"])
         if kind == "fbh":
             cfg["kw"].pop("BH_ret_dyn", None)
-            cfg["kw"]["f_BH"] = [round(ctx.rng.uniform(0, 2e-3), 6) for _ in cfg["tout"]]
+            # increasing targets along the schedule: a later duplicate asks for *more* BHs than an earlier one left
+            fs = sorted(round(ctx.rng.uniform(0, 2e-3), 6) for _ in cfg["tout"])
+            if ctx.rng.random() < 0.4:
+                ctx.rng.shuffle(fs)
+            cfg["kw"]["f_BH"] = fs
             cfg["kw"]["strict_BH_target"] = False
+            if ctx.rng.random() < 0.4:
+                cfg["kw"].update(natal_kicks=True, kick_method="sigmoid", kick_slope=ctx.rng.choice([1, 0.5]), kick_scale=ctx.rng.choice([20, 10]))
         jobs.append((cfg, kind, ctx.rng.random() < 0.6))
     return jobs
 
 
 def sweep(ctx):
     eff = getattr(ctx, "effort", 1)
-    for res in gen.pmap(diff_worker, make_jobs(ctx, ctx.n(30, 500) * eff)):
+    for res in gen.pmap(diff_worker, make_jobs(ctx, ctx.n(42, 500) * eff)):
         bad = check_diff(res)
         ts = res["cfg"]["tout"]
         br = "skipped" if bad == "skip" else res["kind"] + ("/tight" if res["tight"] else "/default") + ("/repeat" if len(set(ts)) < len(ts) else "")
